@@ -14,6 +14,7 @@
 
 import inspect
 import sys
+import types
 
 import qcore.helpers as core_helpers
 import qcore.inspection as core_inspection
@@ -225,9 +226,18 @@ class AsyncTask(futures.FutureBase):
                 return self._generator.send(value)
             else:
                 self._frame = debug.get_frame(self._generator)
-                if hasattr(error, "_type_") and hasattr(error, "_traceback"):
+                if (
+                    hasattr(error, "_type_")
+                    and hasattr(error, "_traceback")
+                    and isinstance(error._type_, type)
+                    and (
+                        error._traceback is None
+                        or isinstance(error._traceback, types.TracebackType)
+                    )
+                ):
                     # stamped by _accept_error of the task that failed (an exception class
-                    # may have a _task attribute of its own, which says nothing about that)
+                    # may have _task, _type_ or _traceback attributes of its own, which say
+                    # nothing about that)
                     return self._generator.throw(error._type_, error, error._traceback)
                 else:
                     # single-argument form: keeps the traceback the error already carries (e.g.
